@@ -8,7 +8,7 @@ contract, unit C12/compute_connections/*, also run under this property.)
 """
 import ast
 import z3
-from pyvc.engine import (SObj, SList, SSeq, SSet, SDict, AStr, PyRaise, EngineError, LoopSpec, OptObj)
+from pyvc.engine import (SObj, SList, SSeq, SSet, SDict, AStr, PyRaise, EngineError, LoopSpec, OptObj, NDArr)
 from pyvc.values import *      # noqa
 from pyvc.runner import Unit, Canary
 from .schema import SCHEMA
@@ -517,6 +517,148 @@ U_CUR = Unit(P + '/Mininec.currents_as_mininec', ['Mininec.currents_as_mininec']
                               [P + '/Mininec.currents_as_mininec/rows/pulse-number'])])
 
 
+
+# ================================================================ currents_as_mininec executed on small concrete models (any implementation)
+def t_currents_small(eng):
+    """the real currents_as_mininec on three concrete small topologies with symbolic pulse currents; the contract is the property
+    statement read off the printed block of every object: a grounded end prints no line, an unconnected end the E line with four
+    zeros, a junction end one J line carrying the signed sum of the junction's pulse currents, and the numbered rows are the
+    object's own pulses.  The fold unit above proves the loops as written for any topology; this one holds for any way of writing
+    them (for instance the grounded ends derived from the pulses instead of is_ground).
+      v0: ideal ground, one single-segment wire A, end 1 on the ground, end 2 free (its only pulse is the ground pulse)
+      v1: ideal ground, A as before but end 2 a junction with end 1 of a later two-segment wire B (junction pulse owned by B)
+      v2: free space, two-segment wire A whose end 2 carries end 1 of B and end 1 of C (one segment each), other ends free"""
+    n = P + '/currents_as_mininec[small model]/'
+    v = eng.choose(3)
+    m = SObj('Mininec', label='m')
+
+    def geobj(label, k, grounded=(False, False)):
+        g = SObj('Geobj', label=label)
+        c0, c1 = SObj('Connected_Geobj', label=label + '.c0'), SObj('Connected_Geobj', label=label + '.c1')
+        for c in (c0, c1):
+            c.fields.update({'list': SList([('conc', [])]), 'geo': SSet(fresh_name('geo')), 'sgn_by_geobj': SDict()})
+        g.fields.update({'name': AStr([('lit', 'WIRE')]), 'tag': k + 1, 'n': k, 'is_ground': tuple(grounded),
+                         'conn': (c0, c1), 'end_segs': (None, None), 'pulses': SList([('conc', [])])})
+        return g
+
+    def pulse(idx, g0, g1, ground=(False, False)):
+        p = SObj('Pulse', label='p%d' % idx)
+        p.fields.update({'idx': idx, 'geo': (g0, g1), 'ground': NDArr([bool(ground[0]), bool(ground[1])])})
+        return p
+
+    def link(owner_geo, owner_end, later, later_end, sign):
+        # what Geobj._add_conn stores (unit C09/Geobj._add_conn): the owner's end lists the later object with the sign,
+        # the later object's end lists the owner with +1; the junction pulse is end_segs[later_end] of the later object
+        owner_geo.fields['conn'][owner_end].fields['list'].chunks[0][1].append((later, later, later_end, sign))
+        later.fields['conn'][later_end].fields['list'].chunks[0][1].append((owner_geo, later, later_end, 1))
+
+    if v == 0:
+        A = geobj('A', 0, (True, False))
+        p0 = pulse(0, A, A, (True, False))
+        A.fields['pulses'] = SList([('conc', [p0])])
+        A.fields['end_segs'] = (0, None)
+        geo, npulse = [A], 1
+        want = {0: [None, [1], 'E']}
+    elif v == 1:
+        A = geobj('A', 0, (True, False))
+        B = geobj('B', 1)
+        p0 = pulse(0, A, A, (True, False))
+        p1 = pulse(1, A, B)
+        p2 = pulse(2, B, B)
+        A.fields['pulses'] = SList([('conc', [p0])])
+        A.fields['end_segs'] = (0, None)
+        B.fields['pulses'] = SList([('conc', [p1, p2])])
+        B.fields['end_segs'] = (1, None)
+        link(A, 1, B, 0, 1)
+        geo, npulse = [A, B], 3
+        want = {0: [None, [1], [(1, 1)]], 1: [[(1, 1)], [3], 'E']}
+    else:
+        A, B, C = geobj('A', 0), geobj('B', 1), geobj('C', 2)
+        p0 = pulse(0, A, A)
+        p1 = pulse(1, A, B)
+        p2 = pulse(2, A, C)
+        A.fields['pulses'] = SList([('conc', [p0])])
+        B.fields['pulses'] = SList([('conc', [p1])])
+        C.fields['pulses'] = SList([('conc', [p2])])
+        B.fields['end_segs'] = (1, None)
+        C.fields['end_segs'] = (2, None)
+        link(A, 1, B, 0, 1)
+        link(A, 1, C, 0, 1)
+        geo, npulse = [A, B, C], 3
+        want = {0: ['E', [1], [(1, 1), (2, 1)]], 1: [[(1, 1)], [], 'E'], 2: [[(2, 1)], [], 'E']}
+    K.distinct(eng, *geo)
+    cur = [fresh_cx('I%d' % k) for k in range(npulse)]
+    gc = SObj('Geo_Container', label='gc')
+    gc.fields['geo'] = SList([('conc', list(geo))])
+    m.fields.update({'geo': gc, 'current': NDArr(list(cur))})
+    eng.summaries.update({'format_float': K.sum_format_float, 'Geo_Container.__iter__': K.sum_geo_container_iter})
+    for q in ('Geobj.pulse_idx_iter', 'Geobj.pulse_iter', 'Connected_Geobj.pulse_iter', 'Connected_Geobj._iter', 'Connected_Geobj.__bool__'):
+        eng.inline.add(q)
+    res = eng.call_qual('Mininec.currents_as_mininec', [m])
+    eng.cover('currents-small-v%d' % v)
+    ok = isinstance(res, AStr)
+    eng.oblige(n + 'returns-text', ok)
+    if not ok:
+        return
+    # split the token stream into lines at the newline literals
+    lines, curl = [], []
+    for t in res.toks:
+        if t[0] == 'lit' and '\n' in t[1]:
+            parts = t[1].split('\n')
+            for j, part in enumerate(parts):
+                if j:
+                    lines.append(curl)
+                    curl = []
+                if part:
+                    curl.append(('lit', part))
+        else:
+            curl.append(t)
+    lines.append(curl)
+
+    def is_header(l):
+        # '<name> NO. <tag> :'
+        return (len(l) >= 2 and l[0][0] == 'lit' and l[0][1].endswith(' NO. ') and l[-1][0] == 'lit' and l[-1][1].rstrip().endswith(':')
+                and not any(t[0] == 'ff' for t in l))
+    starts = [i for i, l in enumerate(lines) if is_header(l)]
+    eng.oblige(n + 'one-block-per-object', len(starts) == len(geo))
+    if len(starts) != len(geo):
+        return
+    for gi in range(len(geo)):
+        blk = lines[starts[gi] + 3:(starts[gi + 1] if gi + 1 < len(geo) else len(lines))]
+        w1, wrows, w2 = want[gi]
+        exp = ([] if w1 is None else [w1]) + [('row', k) for k in wrows] + ([] if w2 is None else [w2])
+        eng.oblige(n + 'block-has-exactly-the-lines-of-its-ends-and-pulses', len(blk) == len(exp),
+                   detail='object %d: %d lines, expected %d' % (gi, len(blk), len(exp)))
+        if len(blk) != len(exp):
+            continue
+        for l, e in zip(blk, exp):
+            vals = [t[1] for t in l if t[0] == 'ff']
+            head = l[0][1] if l and l[0][0] == 'lit' else ''
+            if e == 'E':
+                txt = ''.join(t[1] for t in l) if all(t[0] == 'lit' for t in l) else None
+                eng.oblige(n + 'unconnected-end-reports-zero-current', txt is not None and txt.split() == ['E', '0', '0', '0', '0'])
+            elif isinstance(e, tuple):
+                k = e[1]
+                good = len(vals) == 5
+                eng.oblige(n + 'row-has-five-fields', good)
+                if good:
+                    eng.oblige(n + 'row-number-is-idx+1', num_eq(vals[0], k))
+                    eng.oblige(n + 'row-carries-its-pulse-current', b_and(num_eq(vals[1], cur[k - 1].re), num_eq(vals[2], cur[k - 1].im)))
+            else:
+                good = head.startswith('J ') and len(vals) == 4
+                eng.oblige(n + 'junction-end-prints-one-J-line', good)
+                if good:
+                    s = CX(0, 0)
+                    for (pi, sg) in e:
+                        s = c_add(s, c_mul(to_cx(sg), cur[pi]))
+                    eng.oblige(n + 'J-is-the-signed-sum-of-the-junction-pulse-currents',
+                               b_and(num_eq(vals[0], s.re), num_eq(vals[1], s.im)))
+
+
+U_CUR2 = Unit(P + '/currents_as_mininec-small', ['Mininec.currents_as_mininec'], t_currents_small, SCHEMA,
+              notes='bounded(shape): three concrete topologies of at most three objects and three pulses; currents symbolic')
+
+
 # ================================================================ lemma KCL
 def t_kcl(eng):
     """From the contracts: the junction owner's end (A, n2) sees s_i * I_i for every
@@ -543,7 +685,7 @@ def t_kcl(eng):
 
 U_KCL = Unit(P + '/lemma-KCL', [], t_kcl, SCHEMA, kind='lemma')
 
-UNITS = [U_ADD, U_ADD_CONN, U_ITER, U_PITER, U_GPI, U_GPII, U_CUR, U_KCL]
+UNITS = [U_ADD, U_ADD_CONN, U_ITER, U_PITER, U_GPI, U_GPII, U_CUR, U_CUR2, U_KCL]
 
 
 # units of other modules that also run under this property (resolved by the runner after import)
